@@ -32,7 +32,11 @@ RULE = ("generated data files (all record types, few names so that many values s
         "compared in Go only, files of 2500 (quick) to 64000 (thorough) records with hot keys across bucket and batch "
         "boundaries; and two schedule-dependent classes compared in Go only: race-batch (240 lines, one key holding 180 "
         "values spread over the file, batches of 1-4 records, 8 or 16 in parallel, 16 parser workers, 6 compilations) and "
-        "race-cdb (about 2000 subnet lines in which 124 prefix lengths occur exactly once, CDB with 4/8/16 workers, 120 "
+        "long-line (eight files with one TXT / comment / generic line of 65535, 65536, 65537 or 131072 bytes, with and "
+        "without a trailing CR, first, middle, last and last without newline: from 65536 bytes on bufio.Scanner gives up "
+        "and every setting must fail, one byte less must compile; the file is rebuilt in Coq from prefix, filler count and "
+        "suffix) and read-error (rdb.Compile / cdb.CreateCDBFromReader from an io.Reader that fails after k bytes: every "
+        "setting must fail; Go verdict only); race-cdb (about 2000 subnet lines in which 124 prefix lengths occur exactly once, CDB with 4/8/16 workers, 120 "
         "compilations); non-trivial = distinct (file, codec configuration, setting) with at least one record read back, "
         "or distinct bucket input with at least two keys")
 TRUSTED_BASE = [
@@ -41,7 +45,7 @@ TRUSTED_BASE = [
     "sort.Slice returns a sorted permutation (hypothesis sort_ok; exercised through the hook on every bucket case)",
     "ExecuteBatch per key = old values, additions, deletions: lemma execute_batch_perkey of the C15 development (Proofs/Batch.v)",
     "goroutine schedules of the parser workers and batch writers are represented by quantified permutations (is_stream, order); the mutex rdb.writeMutex serialising ExecuteBatch is trusted",
-    "the line reader of dnsdata.parse is modelled (Model/LineReader.v: bufio.ScanLines, TrimLeft blanks, skip lines shorter than 2 bytes and comment lines) except for the scanner's 64 KiB token limit; the Go-side comparison of large files uses the harness's replica of it",
+    "the line reader of dnsdata.parse is modelled (Model/LineReader.v: bufio.ScanLines, TrimLeft blanks, skip lines shorter than 2 bytes and comment lines, the scanner's token limit bufio.MaxScanTokenSize = 65536 as a constant of the Go standard library - parser.go does not set a buffer; the harness takes the same constant from package bufio); errors of the io.Reader itself are not modelled (class read-error, Go verdict); the Go-side comparison of large files uses the harness's replica of it",
 ]
 ASSUMPTIONS = [
     "values are shorter than 2^32 bytes (kvs_ok)",
@@ -89,6 +93,11 @@ def to_coq(c):
             clist([cbytes(x) for x in (c["keys"] or [])]), cN(c["minsize"]), c["maxnum"], cbool(c["panic"]),
             clist([cbytes(x) for x in (c["sorted"] or [])]),
             clist([cpair(cN(b[0]), cN(b[1])) for b in (c["buckets"] or [])]))
+    if k == "long":
+        return "CLong %s %d %d %s %s" % (cbytes(c["pre"]), c["fill"], c["count"], cbytes(c["post"]),
+                                         clist([cpair(cbool(r["ok"]), cbool(r["go_same"])) for r in c["runs"]]))
+    if k == "readerr":
+        return "CVerdict %s" % clist([cbool(not r["ok"]) for r in c["runs"]])
     if unenforced(c):
         return "CVerdict []"
     if not c["small"]:
@@ -101,6 +110,10 @@ def to_coq(c):
 
 
 def nontrivial(c):
+    if c["kind"] == "long":
+        return [c["class"], c["cfg"]]
+    if c["kind"] == "readerr":
+        return ["readerr", c["cfg"], c["fail_after"]]
     if c["kind"] == "buckets":
         return ["b", c["keys"], c["minsize"], c["maxnum"]] if len(c["keys"] or []) >= 2 else None
     if c.get("nrec", 0) == 0:
@@ -110,6 +123,8 @@ def nontrivial(c):
 
 
 def case_class(c):
+    if c["kind"] in ("long", "readerr"):
+        return "%s:%s" % (c["class"], c["cfg"])
     if c["kind"] == "buckets":
         return c["class"] + (":panic" if c["panic"] else ":%d" % min(len(c["buckets"] or []), 4))
     cl = "%s:%s" % (c["class"], c["cfg"])
@@ -127,6 +142,10 @@ def shrink_candidates(c):
         ks = c["keys"] or []
         for i in range(len(ks)):
             yield dict(c, keys=ks[:i] + ks[i + 1:])
+        return
+    if c["kind"] in ("long", "readerr"):
+        if len(c["runs"]) > 1:
+            yield dict(c, runs=c["runs"][:1])
         return
     if c["kind"] != "compile" or not c.get("file"):
         return
